@@ -10,6 +10,7 @@ THEOREMS = {
         "Dawgs.C02.Props.aggregate_helper_tie", "Dawgs.C02.Props.depth_guard_tie", "Dawgs.C02.Props.agg_count_depth_preserves",
         "Dawgs.C02.Props.agg_count_depth_needs_guard", "Dawgs.C02.Props.alias_declaration_tie", "Dawgs.C02.Props.collect_id_lowering_blocked_by_reprojection",
         "Dawgs.C02.Props.collect_id_by_symbol_differs", "Dawgs.C02.Props.countWhere_ok", "Dawgs.C02.Props.ofCyChain_wf", "Dawgs.C02.Props.hop_not_chain", "Dawgs.C02.Props.count_readings", "Dawgs.C02.Props.countHop_readings", "Dawgs.C02.Props.tr4_cases", "Dawgs.C02.Props.trVariant_cases", "Dawgs.C02.Props.opt_equiv", "Dawgs.C02.Props.opt_equiv_default",
+        "Dawgs.C02.Props.limit_guard_on_fragment", "Dawgs.C02.Props.runTail_hopLimit", "Dawgs.C02.Props.trVariantL_cases", "Dawgs.C02.Props.opt_equiv_limit", "Dawgs.C02.Props.limit_pushdown_on_hop",
     ],
 }
 
@@ -183,7 +184,7 @@ SPEC = {
     "regen": do_regen,
     "lean_modules": ["Dawgs.Props.C02"],
     "theorems_by_module": THEOREMS,
-    "gate_modules": ["Dawgs.Model.C01", "Dawgs.Model.C01S2", "Dawgs.Model.C01Chain", "Dawgs.Model.C01Count", "Dawgs.Model.C02", "Dawgs.Proofs.C02", "Dawgs.Props.C02"],
+    "gate_modules": ["Dawgs.Model.C01", "Dawgs.Model.C01S2", "Dawgs.Model.C01Chain", "Dawgs.Model.C01Count", "Dawgs.Model.C01Limit", "Dawgs.Model.C02", "Dawgs.Proofs.C02", "Dawgs.Proofs.C01Limit", "Dawgs.Props.C02"],
     "suites": [{"name": "c02", "model_suite": "c02sem", "model_input": model_input, "impl_view": impl_view, "model_view": model_view,
                 "judge": judge, "keep_prefix": 1, "thorough_seeds": 1}],
     "nontrivial": nontrivial,
@@ -193,8 +194,8 @@ SPEC = {
     "rule": "cases = one hand-written query per rewrite rule / lowering + FOCUSED FAMILIES (harness/focused.go: variable-length step + fixed hops with every subset of the suffix nodes "
             "already bound; aggregate-only RETURN incl. collect / size(collect()) with LIMIT and no ORDER BY; the aggregate-traversal-count shape with every range form incl. *0..; "
             "collect(node) AS xs used under IN with every way of reading xs afterwards; bindings read by later clauses; named path + pattern predicate over reversible patterns with the path / "
-            "nodes(p) / relationships(p) observed directly and through WITH; string predicates with backslash / % / _ / quote literals) + FRAGMENT queries (the generators of C01's tie: stage S1, stage S2b (one hop with WHERE), stage S2c (chains), stage S1c / S2n (count over a node pattern / a hop), and `MATCH (n[:K...]) RETURN count(n)`; for these the driver also "
-            "compares both REAL statements with the model variants trVariant of opt_equiv (either join order of a hop) — outcome frag-tie, a difference is a VIOLATION even when the evaluations agree) + every Cypher text of the repository corpora the translator accepts + structured random queries "
+            "nodes(p) / relationships(p) observed directly and through WITH; string predicates with backslash / % / _ / quote literals; every grammar spelling of the ORDER BY direction — the direction handed to the reference and to the model pair is read from the TEXT, harness/sortdir.go) + FRAGMENT queries (the generators of C01's tie: stage S1, stage S2b (one hop with WHERE), stage S2c (chains, with and without WHERE conjuncts over single variables), stage S1c / S2n (count over a node pattern / a hop), stage S2L (a hop with LIMIT k and no ORDER BY: limit pushdown), and `MATCH (n[:K...]) RETURN count(n)`; for these the driver also "
+            "compares both REAL statements with the model variants trVariantL of opt_equiv / opt_equiv_limit (either join order of a hop; on S2L the optimised model statement carries the LIMIT on the hop frame too) — outcome frag-tie, a difference is a VIOLATION even when the evaluations agree) + every Cypher text of the repository corpora the translator accepts + structured random queries "
             "(levels 1-5, splitmix64(VERIF_SEED)); each is translated twice by the REAL translator: `Translate` (optimised) and the verif-tagged hook `TranslateUnoptimized` "
             "(hooks/C02.patch: no rewrite rule, no lowering plan, no fast path), plus rules-only / lowerings-only variants to attribute a difference. Both statements are evaluated by "
             "Sql.eval on encode(g) for the fixed graph family, seeded random graphs and (fixed queries) all graphs up to 2 nodes / 2 edges, and compared as ordered lists under ORDER BY "
@@ -241,8 +242,16 @@ MANIFEST = {
             "unoptimised one; the REAL two statements do differ in that order on generated S2b queries — and both orders are permutations of the Cypher result (C01 s2_sound; chain_sound for the first hop of a chain), hence of each "
             "other; (2) the count-store fast path against the node frame (C01 count_sound: both return the Cypher count; the fast path is emitted only when the MATCH has no user predicate); (3) on S1 the two statements are identical (trVariant_cases). The direction choice itself is not modelled "
             "(see C01): it is a parameter, the theorem holds for all choices, and the per-run tie frag-tie checks real optimised / unoptimised statement = model statement for one of the two "
-            "orders each. NOT PROVED: C02_full for the real translator (all "
-            "queries); the other lowerings (late path materialisation, suffix / predicate placement, direction selection, expand-into, exact range, shortest-path strategies, aggregate traversal "
+            "orders each. LIMIT PUSHDOWN on the proved fragment (stage S2L of C01: one hop, optional WHERE, LIMIT k, no ORDER BY / SKIP; trVariantL = C01's tr6F; trVariantL_cases: both variants read the "
+            "query the same way, the optimised statement has `limit k` on the frame s0 AND on the statement, the unoptimised one on the statement only): limit_guard_on_fragment — the code's guard tailGuard "
+            "holds on the shape of that statement and fails on every other shape of the fragment (no LIMIT; SKIP; ORDER BY; DISTINCT; an aggregate in the tail), the shapes being assigned by hand from the "
+            "statement forms; opt_equiv_limit — for every GraphOK2 graph, every S2L query and every join-order choice of the two variants: whenever both statements evaluate, the base query (no LIMIT) has a "
+            "reference result r and (1) CutEquiv: both row lists are sub-bags of the rows of r, each of exactly min(k, |r|) rows — the two variants need NOT return the same bag, and need not by openCypher, "
+            "since without ORDER BY the LIMIT keeps whichever rows the scan of the chosen join order delivers first; (2) the optimised rows are runTail on the guard's shape over the frame CUT to k rows, the "
+            "unoptimised rows are runTail over the whole frame, so limit_pushdown_preserves applies literally (limit_pushdown_on_hop); (3) when both variants pick the same join order the two row lists are "
+            "EQUAL, in order. The per-run search compares such pairs the same way (equal length + sub-bag of the uncut statement's rows). On S1 (ORDER BY id(n) SKIP / LIMIT) no lowering fires and the statements "
+            "are identical (opt_equiv (3)). NOT PROVED: C02_full for the real translator (all "
+            "queries); limit pushdown into the last frame of a chain; the other lowerings (late path materialisation, suffix / predicate placement, direction selection, expand-into, exact range, shortest-path strategies, aggregate traversal "
             "count) are covered by the search only. SEARCHED: every corpus / generated query both variants translate and Sql.eval models; the evidence lists which rules and lowerings fired.",
     "note": "Search compares two outputs of the real translator with each other, so it needs no Cypher semantics and is not affected by the C01 deviations (both variants share them). "
             "No PostgreSQL server: SQL meaning is the trusted Lean transcription.",
